@@ -355,13 +355,15 @@ def ev_circular(case, ctx):
         c.pa = 0.0
         cat.append(c)
     try:
-        for stage, regroup in ((1, True), (2, True), (1, False), (2, False)):
+        for (stage, regroup), ratio in itertools.product(((1, True), (2, True), (1, False), (2, False)), (None, 0.9, 1.3)):
+            if ratio is not None and not regroup:
+                continue
             ctx.count("runs")
-            msig = "%s,stage=%d,regroup=%s" % (sig, stage, regroup)
+            msig = "%s,stage=%d,regroup=%s" % (sig, stage, regroup) + ("" if ratio is None else ",ratio=%g" % ratio)
             ctx.nontrivial(msig)
             try:
                 out = scenes.finder().priorized_fit_islands(f, catalogue=[_copy(c) for c in cat], rms=scenes.RMS, bkg=0.0, cores=1, docov=False,
-                                                            stage=stage, doregroup=regroup)
+                                                            stage=stage, doregroup=regroup, ratio=ratio)
             except Exception as e:
                 ctx.violation("priorized fit of circular components raised %r (%s)" % (e, msig), "raise|" + msig)
                 continue
